@@ -145,4 +145,62 @@ theorem progress {μ : Type} (s : St μ) (hne : s.todo ≠ [] ∨ s.chan ≠ [])
         simp only [step, ht, this, if_true]
       · simp only [hc, List.length_cons, List.length_append, List.length_nil]; omega
 
+
+theorem step_done_prefix {μ : Type} (s s' : St μ) (a : Act) (h : step s a = some s') : s.done <+: s'.done := by
+  cases a with
+  | enq =>
+    simp only [step] at h
+    split at h
+    · split at h
+      · cases h; exact List.prefix_refl _
+      · cases h
+    · cases h
+  | deq =>
+    simp only [step] at h
+    split at h
+    · cases h; exact List.prefix_append _ _
+    · cases h
+  | drain k =>
+    simp only [step] at h
+    split at h
+    · cases h; exact List.prefix_append _ _
+    · cases h
+
+theorem run_done_prefix {μ : Type} (acts : List Act) (s s' : St μ) (h : run s acts = some s') : s.done <+: s'.done := by
+  induction acts generalizing s with
+  | nil => simp [run] at h; subst h; exact List.prefix_refl _
+  | cons a as ih =>
+    simp only [run] at h
+    split at h
+    · cases h
+    · next s1 hs => exact List.IsPrefix.trans (step_done_prefix s s1 a hs) (ih s1 h)
+
+theorem run_append {μ : Type} (a b : List Act) (s : St μ) :
+    run s (a ++ b) = (run s a).bind (fun s1 => run s1 b) := by
+  induction a generalizing s with
+  | nil => simp [run]
+  | cons x xs ih =>
+    simp only [List.cons_append, run]
+    cases step s x with
+    | none => simp
+    | some s1 => simp [ih]
+
+theorem drain_eq_deqs {μ : Type} (k : Nat) (s : St μ) (h1 : 1 ≤ k) (h2 : k ≤ s.chan.length) :
+    step s (.drain k) = run s (List.replicate k .deq) := by
+  induction k generalizing s with
+  | zero => omega
+  | succ k ih =>
+    obtain ⟨cap, todo, chan, done⟩ := s
+    cases chan with
+    | nil => simp at h2
+    | cons m t =>
+      simp only [List.length_cons] at h2
+      cases k with
+      | zero => simp [step, run]
+      | succ j =>
+        have := ih { cap := cap, todo := todo, chan := t, done := done ++ [m] } (by omega) (by simpa using h2)
+        rw [List.replicate_succ, run]
+        simp only [step]
+        rw [← this]
+        simp [step]
 end InvProxy.WsRelay
